@@ -153,7 +153,7 @@ def domain_ok(data, fmt, blanks, minT, maxT, thr):
     hi = data["max"] if maxT is None else maxT
     if not lo < hi:
         return "empty-span"
-    if not TC.collapse_free(dict(s, min=min(lo, data["min"]), max=max(hi, data["max"]))):
+    if not TC.collapse_free(dict(s, min=min(lo, data["min"]), max=max(hi, data["max"]))) or not TC.collapse_free(dict(s, min=lo, max=hi)):
         return "near-integer-rule-would-merge-distinct-timestamps"
     return None
 
